@@ -42,6 +42,18 @@ def fn_done():
     return Fn('solver_done', 'src/solver.cpp', 'done', flt='solver_t::done', self_struct='struct nv_solver', **COMMON)
 
 
+def fn_state_ctor():
+    members = [(r'^vgrad\|nano::function_t', 'nv_fn_vgrad({self})'), (r'^update_calls\|', 'nv_state_update_calls'),
+               (r'^update_constraints\|', 'nv_state_update_constraints'), (r'^constraints\|nano::function_t', '@nondet')] + MEMBERS
+    kw = dict(COMMON)
+    kw.update(members=members, opaque=OPAQUE + [r'constraints_t', r'std::vector<std::variant'])
+    return Fn('state_ctor', 'src/solver/state.cpp', 'solver_state_t', flt='solver_state_t::solver_state_t', kinds=('CXXConstructorDecl',),
+              select=lambda d: len([c for c in d['inner'] if c['kind'] == 'ParmVarDecl']) == 2, self_struct='struct nv_state', **kw)
+
+
+ENUMS = [('src/solver/state.cpp', 'nano::solver_status')]
+
+
 def fn_lsearch_get():
     return Fn('lsearch_get', 'src/solver/lsearch.cpp', 'get', flt='lsearch_t::get', self_struct='struct nv_lsearch', **COMMON)
 
@@ -69,12 +81,13 @@ int main(void)
 
 
 def targets(defines=()):
-    ts = [Target('lemma_lsearchk_get_contract_refinement', [], 'specs/solver/refine.h', enforce='lsearchk_get_weak',
+    ts = [Target('state_ctor', [fn_state_ctor()], H, defines=defines, enums=ENUMS),
+          Target('lemma_lsearchk_get_contract_refinement', [], 'specs/solver/refine.h', enforce='lsearchk_get_weak',
                  replace=['lsearchk_get'], harness=REFINE_HARNESS, defines=defines,
                  note='contract-level lemma: C07 contract of lsearchk_t::get implies the contract the solvers use'),
-          Target('solver_done', [fn_done()], H, defines=defines),
+          Target('solver_done', [fn_done()], H, defines=defines, enums=ENUMS),
           Target('lsearch_get', [fn_lsearch_get()], H, replace=['lsearchk_get'], defines=defines)]
     for cname, tu, flt in BODIES:
         ts.append(Target(cname, [fn_minimize(cname, tu, flt), fn_done(), fn_lsearch_get()], H,
-                         replace=['solver_done', 'lsearch_get'], defines=defines))
+                         replace=['solver_done', 'lsearch_get'], defines=defines, enums=ENUMS))
     return ts
